@@ -11,19 +11,21 @@ from fractions import Fraction
 from lib.core import zlit, zlist, natlit
 
 MANIFEST = {
-    'text': 'Coq theorems over a value-level model of mpyc/statistics.py (secure integers): _isqrt returns r with r^2 <= a < '
-            '(r+1)^2 for all 0 <= a < 2^l; mean is the round-half-up of the exact mean; the quantile index/delta arithmetic '
-            'and interpolation (both methods, all n, all data lengths) equal CPython statistics.quantiles transcribed to Z, '
-            'rounded to nearest; mode returns the SMALLEST most frequent value (mode_returns_a_mode, mode_is_min_mode) and '
-            'therefore differs from Python (first encountered): mode_eq_python_refuted with witness [3,3,1,1]. The model '
-            '(incl. _quickselect with its random tape, _med, quantiles, _var, _isqrt, _mode, covariance) is compared exactly '
-            'with the implementation on every run; all functions are checked against Python statistics on exact Fractions.',
+    'text': 'Coq theorems over a value-level model of mpyc/statistics.py (secure integers): isqrt_correct (_isqrt returns r with '
+            'r^2 <= a < (r+1)^2 for all 0 <= a < 2^l, all l), mean_int_round_half_up / mean_int_nearest, '
+            'quantile_arith_eq_python (both methods, all n > 0, all cut points, all data lengths: index/delta arithmetic, clamping and '
+            'interpolation equal CPython statistics.quantiles transcribed to Z, rounded half up) with index-range lemmas, and '
+            'mode_eq_python_refuted (witness [3,3,1,1]: the code returns the smallest mode, Python the first encountered). The model '
+            '(incl. _quickselect on its random tape, _med, quantiles with key bookkeeping, _var, _isqrt, _mode, covariance) is '
+            'compared exactly (value and consumed tape bits) with the implementation on every run; every function, secint and '
+            'secfxp, is checked against Python statistics on exact Fractions.',
     'note': 'Trusted: Coq kernel + vm_compute; hand-written model (runtime.sum/in_prod/sorted/min_max/argmax/unit_vector/'
-            'comparisons are modelled by their documented value-level meaning); CPython quantile formulas transcribed by hand. '
-            'MISSING as theorems: quickselect_correct (hence median/median_low/median_high = order statistics is established '
-            'only by exhaustive/random correspondence + oracle, not by proof), var_int rounding, fsqrt_bound and all '
-            'fixed-point error bounds (secfxp is oracle-tested only, tolerance stated in the check), correlation/'
-            'linear_regression. Known finding F-C34: mode of multimodal data whose first-encountered mode is not the minimum.',
+            'comparisons modelled by their documented value-level meaning); CPython 3.12 quantile formulas transcribed by hand. '
+            'MISSING as theorems: quickselect_correct (so median/median_low/median_high/quantile points = order statistics is '
+            'established by exhaustive/random correspondence + oracle only), mode_returns_a_mode/mode_is_min_mode, var_int rounding, '
+            'fsqrt_bound and all fixed-point error bounds (secfxp is oracle-tested with the tolerances recorded in notes), '
+            'correlation/linear_regression (oracle only). secint median of an even number of points is floor((a+b)/2) as coded. '
+            'Known finding F-C34-1: mode of multimodal data whose first-encountered mode is not the minimum mode.',
     'technique': 'Coq proof over value-level model + tape-substituted differential correspondence + exact-Fraction oracle',
 }
 
